@@ -29,20 +29,8 @@ verus! {
 //@   ensures [C03+C04.value.is_nonnull] r == (self is NonNull)
 //@ end
 
-/// structural correspondence between an AST type reference and its type-system form (semantics::convert_type)
-pub open spec fn type_matches<S>(t: Type<S, Pos>, a: AstType) -> bool
-    decreases a
-{
-    match a {
-        AstType::Named(n) => t is Named && tv(t->Named_0.name.inner) == n.name.name@,
-        AstType::List(l) => t is List && type_matches(t->List_0.inner, l.r#type),
-        AstType::NonNull(l) => t is NonNull && type_matches(t->NonNull_0.inner, l.r#type),
-    }
-}
-//@ contract nitrogql_semantics::type_system_utils ::fn convert_type
+//@ fragment contract_convert_type.rs
 //@   attr #[verifier::external_body]
-//@   ret r
-//@   ensures [assumed.convert_type.matches] crate::type_matches(r, *ty)
 //@ end
 
 pub proof fn lemma_compat_ast<'a, S: crate::graphql_type_system::text::Text<'a>>(c: Type<S, Pos>, vt: AstType, loc: Type<S, Pos>)
